@@ -319,6 +319,12 @@ type workerBatch struct {
 }
 
 func runBatch(workDir string, b workerBatch, resCh chan<- *CaseResult) {
+	runBatchWith(workDir, b, resCh, os.Args[0], nil)
+}
+
+// runBatchWith runs a batch with a given worker binary (the plain one, or the
+// one built with the race detector) and extra environment.
+func runBatchWith(workDir string, b workerBatch, resCh chan<- *CaseResult, bin string, extraEnv []string) {
 	remaining := b.cases
 	attempt := 0
 	for len(remaining) > 0 {
@@ -328,11 +334,12 @@ func runBatch(workDir string, b workerBatch, resCh chan<- *CaseResult) {
 		errF := filepath.Join(workDir, fmt.Sprintf("err-%d-%d.log", b.id, attempt))
 		jb, _ := json.Marshal(remaining)
 		os.WriteFile(spec, jb, 0o644)
-		cmd := exec.Command(os.Args[0], "worker", spec, outF)
+		cmd := exec.Command(bin, "worker", spec, outF)
 		ef, _ := os.Create(errF)
 		cmd.Stdout = ef
 		cmd.Stderr = ef
 		cmd.Env = append(os.Environ(), "VERIF_WORKDIR="+workDir)
+		cmd.Env = append(cmd.Env, extraEnv...)
 		err := cmd.Run()
 		ef.Close()
 		// parse the output
@@ -462,12 +469,23 @@ func orchestrate(propID, tier string, seed int64, replay string) int {
 	}
 	defer os.RemoveAll(workDir)
 
+	// cases marked race=1 run in workers built with the Go race detector
+	// (informational instrumentation, DESIGN 2.6): same oracles, plus a log of
+	// race reports that is summarised in the evidence and never decides.
+	var plainCases, raceCases []CaseSpec
+	for _, cs := range cases {
+		if cs.S["race"] == "1" {
+			raceCases = append(raceCases, cs)
+		} else {
+			plainCases = append(plainCases, cs)
+		}
+	}
 	nw := p.Workers
 	if nw <= 0 {
 		nw = runtime.NumCPU()
 	}
-	if nw > len(cases) {
-		nw = len(cases)
+	if nw > len(plainCases) {
+		nw = len(plainCases)
 	}
 	if nw < 1 {
 		nw = 1
@@ -476,20 +494,49 @@ func orchestrate(propID, tier string, seed int64, replay string) int {
 	for i := range batches {
 		batches[i].id = i
 	}
-	for i, cs := range cases {
+	for i, cs := range plainCases {
 		batches[i%nw].cases = append(batches[i%nw].cases, cs)
 	}
 	resCh := make(chan *CaseResult, len(cases)+16)
 	var wg sync.WaitGroup
 	for _, b := range batches {
+		if len(b.cases) == 0 {
+			continue
+		}
 		wg.Add(1)
 		go func(b workerBatch) {
 			defer wg.Done()
 			runBatch(workDir, b, resCh)
 		}(b)
 	}
+	// second phase: a race-instrumented node is 10-20x slower; sharing the
+	// machine with sixteen plain workers would only make its watchdogs fire
+	wg.Wait()
+	raceBin := filepath.Join(verifDir(), ".build", "vcheck-race")
+	if len(raceCases) > 0 {
+		if _, err := os.Stat(raceBin); err != nil {
+			for _, cs := range raceCases {
+				r := newResult(cs)
+				r.Verdict = "inconclusive"
+				r.Note = "no race-detector build of the harness available (" + raceBin + ")"
+				resCh <- r
+			}
+		} else {
+			// one case per worker process: a race-instrumented live network is
+			// 5-10x slower and should not share its process with another one
+			for i, cs := range raceCases {
+				wg.Add(1)
+				go func(b workerBatch) {
+					defer wg.Done()
+					logp := filepath.Join(workDir, fmt.Sprintf("race-%d", b.id))
+					runBatchWith(workDir, b, resCh, raceBin, []string{"GORACE=halt_on_error=0 exitcode=0 log_path=" + logp + " history_size=3"})
+				}(workerBatch{id: 1000 + i, cases: []CaseSpec{cs}})
+			}
+		}
+	}
 	wg.Wait()
 	close(resCh)
+	raceSummary := summariseRaceLogs(workDir, len(raceCases))
 
 	var results []*CaseResult
 	for r := range resCh {
@@ -591,6 +638,9 @@ func orchestrate(propID, tier string, seed int64, replay string) int {
 	if p.Exhaustive {
 		cov["exhaustive"] = true
 	}
+	if raceSummary != nil {
+		cov["race_detector"] = raceSummary
+	}
 	if len(inconNotes) > 0 {
 		cov["inconclusive_notes"] = inconNotes
 	}
@@ -639,6 +689,10 @@ func orchestrate(propID, tier string, seed int64, replay string) int {
 	}
 	for _, n := range inconNotes {
 		fmt.Printf("  inconclusive: %s\n", n)
+	}
+	if raceSummary != nil {
+		fmt.Printf("  race detector (informational, never a verdict): %d case(s) under -race, %d report(s), %d distinct access pairs in Babble code, %d in harness-only code\n",
+			raceSummary["cases_run_under_race_detector"], raceSummary["reports_total"], raceSummary["distinct_access_pairs_babble"], raceSummary["distinct_access_pairs_harness_only"])
 	}
 
 	if len(seenV) > 0 {
